@@ -338,7 +338,15 @@ JUDGE_TREES_CFG = JUDGE_CFG
 def group_replay(prop, casefile):
     def mk(v):
         n = v["id"] // 100
-        return {"pipeline": "group", "n": n, "casefile": casefile, "prop": prop, "q": v.get("q")}
+        line = None                      # the generated group itself travels in the recipe: the replay file stays usable after the run
+        try:
+            for l in open(casefile):
+                if l.startswith('{"n":%d,' % n) or json.loads(l)["n"] == n:
+                    line = json.loads(l)
+                    break
+        except OSError:
+            pass
+        return {"pipeline": "group", "n": n, "casefile": casefile, "group": line, "prop": prop, "q": v.get("q")}
     return mk
 
 
@@ -418,13 +426,14 @@ def replay_case(run, rp):
         res, _, _ = stage_texts(sub, [rp["q"]], observe=True, with_json=True)
         stage_judge_enum(sub, res, rp["prop"])
     elif rp["pipeline"] == "group":
-        line = None
-        for l in open(rp["casefile"]):
-            if l.startswith('{"n":%d,' % rp["n"]) or json.loads(l)["n"] == rp["n"]:
-                line = l
-                break
+        line = json.dumps(rp["group"]) + "\n" if rp.get("group") else None
+        if line is None and os.path.exists(rp.get("casefile") or ""):
+            for l in open(rp["casefile"]):
+                if l.startswith('{"n":%d,' % rp["n"]) or json.loads(l)["n"] == rp["n"]:
+                    line = l
+                    break
         if line is None:
-            raise Broken("replay: group %d not found" % rp["n"])
+            raise Broken("replay: group %d not found (the generated case file is gone)" % rp["n"])
         cf = os.path.join(sub.work, "one.ndjson")
         open(cf, "w").write(line)
         res, _, _ = stage_groups(sub, cf, observe=True, sql=True, json=True)
